@@ -3,6 +3,7 @@ import ast
 
 from .. import libfacts, util
 from ..interp import Interp, Path, exc_value, is_exc, show, strip_sites, subterms, NONE, REPRESENTATIVES
+from .. import slots
 from ..report import Undecided
 from . import common
 
@@ -42,7 +43,7 @@ def find_close_all(prog):
 def supervisor(chk):
     prog = chk.program
     rule = "O2.1"
-    fi = prog.method(META, "_manage_runners")
+    fi = slots.supervisor(prog)
     name = fi.qual
     close = find_close_all(prog)
     CLOSE = ("attr", SELF, close.name)
@@ -92,7 +93,7 @@ def supervisor(chk):
     outs = Interp(prog, close, unroll=2).run()
     chk.count(len(outs))
     ok = True
-    RUNNERS = ("attr", SELF, "_runners")
+    RUNNERS = ("attr", SELF, slots.runners_map(prog))
     for o in outs:
         if o.kind not in ("normal", "return"):
             continue
@@ -129,7 +130,7 @@ def mapping_cleared(chk, rule):
     queued instead of being sent to closed runners (shared by C01 and C12)"""
     prog = chk.program
     close = find_close_all(prog)
-    RUNNERS = ("attr", SELF, "_runners")
+    RUNNERS = ("attr", SELF, slots.runners_map(prog))
     outs = Interp(prog, close, unroll=1).run()
     chk.count(len(outs))
     ok = True
@@ -327,7 +328,7 @@ def trio_runner(chk):
         for n in ast.walk(ac.node):
             if isinstance(n, ast.Call) and isinstance(n.func, ast.Attribute) and n.func.attr == "run_in_executor":
                 txt = ast.unparse(n)
-                if "from_thread.run" in txt and "self.%s" % cl.name in txt and "trio_token=self._trio_token" in txt:
+                if "from_thread.run" in txt and "self.%s" % cl.name in txt and ("trio_token=self.%s" % slots.trio_token(prog, cls)) in txt:
                     routed = True
                     if not (n.args and isinstance(n.args[0], ast.Constant) and n.args[0].value is None):
                         chk.bad(rule, ac.qual, "the channel is closed through a private executor", node=n, stmt="aclose-executor", aux=True)
@@ -393,7 +394,7 @@ def aclose_wakes_manage(chk, rule):
             continue
         F = ("attr", SELF, ff)
         ac = prog.lookup_method(cls, "aclose")
-        STOPPED = ("attr", ("attr", SELF, "_stopped"), "is_set")
+        STOPPED = ("attr", ("attr", SELF, slots.stopped_event(prog)), "is_set")
         ok = True
         for done in (False, True):
 
@@ -473,11 +474,11 @@ def stop_chain(chk):
             break
         for e in stops:
             src = e[1][1][1]
-            if not (src[0] == "item" and "_runners" in show(src[1]) and "values" in show(src[1])):
+            if not (src[0] == "item" and slots.runners_map(prog) in show(src[1]) and "values" in show(src[1])):
                 chk.bad(rule, stop.qual, "MetaRunner.stop ranges over %s" % show(src), node=stop.node, stmt="stop-domain")
                 ok = False
     bstop = prog.method(BASE, "stop")
-    STOPPED = ("attr", ("attr", SELF, "_stopped"), "is_set")
+    STOPPED = ("attr", ("attr", SELF, slots.stopped_event(prog)), "is_set")
     for stopped in (True, False):
         outs = Interp(prog, bstop, decide=lambda it, p, t, stopped=stopped: stopped if (t[0] == "call" and t[1] == STOPPED) else None).run()
         for o in outs:
